@@ -60,6 +60,9 @@ def _gen_c07(repo, work):
         f.write("package processor\n\n// generated from Messages.sol quorum() and governance.ral quorumSize by extract/contracts.py\n")
         f.write("func verifSolQuorum(n uint64) uint64 { return %s }\n" % sol)
         f.write("func verifRalQuorum(n uint64) uint64 { return %s }\n" % ral)
+        f.write("\n// use sites: verifyVM answers \"no quorum\" when ..., parseAndVerifyVAA asserts ...\n")
+        f.write("func verifSolRejects(s, n uint64) bool { return %s }\n" % _ct.sol_quorum_use(repo))
+        f.write("func verifRalAccepts(s, n uint64) bool { return %s }\n" % _ct.ral_quorum_use(repo))
     return [path]
 
 
@@ -69,9 +72,9 @@ CHECKS["C07"] = {
         {"mod": "explorer-backend", "pkg": "./processor", "entry": "VerifC07_ExplorerQuorum", "reach": ["end"]},
     ],
     "exhaustive": True,
-    "bounds": {"n": "0..255 (symbolic; the property's whole domain)"},
+    "bounds": {"n": "0..255 (symbolic; the property's whole domain)", "s": "number of signatures 0..255 (symbolic; the wire format's one-byte count) for the contracts' use sites"},
     "outside": "nothing: n ranges over the wire format's one-byte guardian count (the contract expressions are evaluated in 64-bit arithmetic; for n <= 255 no intermediate exceeds 2^16, so checked 256-bit arithmetic gives the same value)",
-    "assumptions": ["contract formulas are extracted as arithmetic expression text from Messages.sol quorum() and governance.ral (let quorumSize = ...) on every run; the extractor fails closed",
+    "assumptions": ["contract formulas are extracted as arithmetic expression text from Messages.sol quorum() and governance.ral (let quorumSize = ...) on every run, and so are the conditions under which the contracts apply them (the `no quorum` test of verifyVM, the InvalidSignatureSize assertion of parseAndVerifyVAA); the extractor fails closed",
                     "explorer-backend links github.com/alephium/wormhole-fork/node from the module cache (go.mod), that copy is what is analysed for it"],
 }
 
@@ -134,8 +137,13 @@ CHECKS["C04"] = {
          "shards": {"quick": ["a.plen=0,1,2;b.plen=0,1,2;a.nsig=0,1;b.nsig=0,1"], "thorough": ["a.plen=0..3;b.plen=0..3", "a.plen=100;b.plen=100", "a.plen=1000;b.plen=1000"]}},
         {"pkg": "./pkg/vaa", "entry": "VerifC04_InjectiveLengths", "reach": ["different-lengths"],
          "shards": {"quick": ["a.plen=0..3;b.plen=0..3"], "thorough": [""]}},
+        {"pkg": "./pkg/vaa", "entry": "VerifC04_Recompute", "reach": ["recomputed"],
+         "shards": {"quick": ["v.plen=1,2;v.nsig=0,1"], "thorough": ["v.plen=1,2,3,100"]}},
+        {"pkg": "./pkg/vaa", "entry": "VerifC04_WireDigest", "reach": ["end"]},
     ],
-    "bounds": {"quick": {"payload length": "0,1,2,3,100", "signatures": "0..2 (Layout), 0..1 (Independence)", "fields": "every field fully symbolic, nanoseconds 0..999999999 symbolic"},
+    "bounds": {"quick": {"recompute": "digest asked for, then one body field changed in place or in a by-value copy (8 fields, new value symbolic), digest asked for again; payload 1..2 bytes",
+                         "wire digest": "Marshal then Unmarshal then SigningMsg at payload lengths 1,2,100,1000,1001,65535,65536 plus c-1,c,c+1,2c for every integer constant c in [64,200000] of Unmarshal's SSA; no signatures",
+                         "payload length": "0,1,2,3,100", "signatures": "0..2 (Layout), 0..1 (Independence)", "fields": "every field fully symbolic, nanoseconds 0..999999999 symbolic"},
                "thorough": {"payload length": "0,1,2,3,100,1000,1001", "signatures": "0..4"}},
     "outside": "payload lengths and signature counts not listed; timestamps outside the 32-bit whole-second range of the wire format; the contracts themselves are read as text (layout and hash structure extracted by pattern, fail-closed), not executed",
     "assumptions": ["Keccak-256 uninterpreted (congruence only)", "encoding/binary.Write model (DESIGN 4)",
@@ -248,11 +256,17 @@ CHECKS["C13"] = {
         {"pkg": "./pkg/processor", "entry": "VerifC13_Histories", "reach": ["end"], "opts": _PROC_CLOCK_OPTS,
          "shards": {"quick": _c13_q, "thorough": _c13_t}, "timeout": {"quick": 2400, "thorough": 30000}},
         {"pkg": "./pkg/processor", "entry": "VerifC13_ObserveTwice", "reach": ["looped-back", "observed-again", "dropped-governance"], "opts": _PROC_CLOCK_OPTS},
+        # the real Run loop as a goroutine fed through its channels (dispatch, set update, ticker, cancellation)
+        {"pkg": "./pkg/processor", "entry": "VerifC13_RunLoop", "reach": ["end", "completed"], "opts": dict(_PROC_OPTS, clockfiles=_CLOCK + ",pkg/processor/processor.go"),
+         "shards": {"quick": ["K=1,2"] + ["K=3;m.plen=0,1;ev#0=%d" % a for a in (0, 1, 3, 4, 5, 6, 7, 8)],
+                    "thorough": ["K=1,2"] + ["K=3;ev#0=%d" % a for a in (0, 1, 3, 4, 5, 6, 7, 8)] + ["K=4;m.plen=0,1;inj.plen=0;setsize=1,2;ev#0=0;ev#1=1;ev#2=%d" % a for a in (0, 1, 3, 4, 5, 6, 7, 8)]},
+         "timeout": {"quick": 2400, "thorough": 30000}},
     ],
     "bounds": {"quick": {"histories": "every sequence of K <= 3 events from the uninitialised processor over the 9-letter alphabet {set update (0..2 keys), chain message M (payload 0..1 bytes, all fields symbolic), delivery of the own loopback, adversarial observation (address/digest/signature each nil, empty, short, exact, long; contents symbolic), honest observation by member 1, inbound VAA of arbitrary bytes (9 lengths incl. nil), inbound well-formed VAA, injected VAA (payload 0..1), cleanup tick after an arbitrary clock advance}; for K = 3 the malformed-length combinations are reduced to four forms; plus selected K = 4 prefixes (set update, message, loopback, *; set update, injection, *, *; set update, message|observation, set update, *)",
+                         "run loop": "the REAL Processor.Run as a goroutine: K <= 3 inputs over its channels (set update, chain message, adversarial / honest observation, inbound bytes / well-formed VAA, injection, the 30 s cleanup ticker fired by the harness), the own loopback consumed by Run itself, then cancellation; besides no-panic: every input is consumed, a set update is installed, an observed message is signed (and completes with a one-member set), Run returns on cancellation",
                          "unwind": 3000},
-               "thorough": {"histories": "all K <= 3; all K = 4 histories that start with a set update or an injection"}},
-    "outside": "histories longer than the bound; more than one distinct chain message; guardian sets larger than 2; panics inside libp2p/badger/zap themselves; the notifier (nil in the harness, as in production without a Discord token)",
+               "thorough": {"histories": "all K <= 3; all K = 4 histories that start with a set update or an injection", "run loop": "K <= 3 with payload 0..2, K = 4 after set update + message"}},
+    "outside": "histories longer than the bound; more than one distinct chain message; in the Run-loop entry inputs arrive one at a time (the loop's select never has two ready cases); guardian sets larger than 2; panics inside libp2p/badger/zap themselves; the notifier (nil in the harness, as in production without a Discord token)",
     "assumptions": CHECKS["C01"]["assumptions"] + ["clock: time.Now()/time.Since( in cleanup.go, broadcast.go, observation.go redirected mechanically to the harness clock (arbitrary non-decreasing instants); Duration.Minutes()/Hours() comparisons replaced by integer comparisons only after the equivalence was proved on the SSA-executed stdlib code"],
 }
 _c14 = ["m.plen=1;n=%d;kind=%d;stored=%d;reqQueueFull=%d" % (n, k, st, q) for n in (1, 3) for k in (0, 1, 2) for st in (0, 1) for q in (0, 1)]
@@ -330,26 +344,26 @@ CHECKS["C15"] = {
 CHECKS["C17"] = {
     "runs": [
         {"pkg": "./cmd/guardiand", "entry": "VerifC17_Dispatch", "reach": ["forwarded", "not-forwarded", "end"], "opts": {"z3": "z3-new"},
-         "shards": {"quick": ["K=1,2", "K=3;advance#0=0", "K=3;advance#0=1", "K=3;advance#0=2"],
-                    "thorough": ["K=1,2,3"] + ["K=4;advance#0=%d;ev#0=%d;advance#1=%d" % (a, e, b) for a in (0, 1, 2) for e in (0, 1) for b in (0, 1, 2)]},
+         "shards": {"quick": ["K=1,2", "K=3;advance#0=0", "K=3;advance#0=1", "K=3;advance#0=2", "K=3;advance#0=3"],
+                    "thorough": ["K=1,2,3"] + ["K=4;advance#0=%d;ev#0=%d;advance#1=%d" % (a, e, b) for a in (0, 1, 2, 3) for e in (0, 1) for b in (0, 1, 2, 3)]},
          "timeout": {"quick": 2400, "thorough": 30000}},
         {"pkg": "./cmd/guardiand", "entry": "VerifC17_PostRace", "reach": ["end"], "opts": {"z3": "z3-new"}},
     ],
-    "bounds": {"quick": {"post race": "two concurrent callers of PostObservationRequest on a queue with 0, 1 or 2 free slots; every interleaving at the granularity of channel operations (pre-emption before send/len/cap/select)", "histories": "the real dispatcher goroutine driven through its channels for K <= 3 events; each event = clock advance of 0, 6 min or 11 min 1 s, then a purge tick or a request with ANY 32-bit chain id (2 and 255 have watchers) and ANY transaction hash byte; watcher queues of capacity 1 drained or left as they are before each request",
+    "bounds": {"quick": {"post race": "two concurrent callers of PostObservationRequest on a queue with 0, 1 or 2 free slots; every interleaving at the granularity of channel operations (pre-emption before send/len/cap/select)", "histories": "the real dispatcher goroutine driven through its channels for K <= 3 events; each event = clock advance of 0, 6 min, 8 min 30 s or 11 min 1 s, then a purge tick or a request with ANY 32-bit chain id (2 and 255 have watchers) and ANY transaction hash byte; watcher queues of capacity 1 drained or left as they are before each request",
                          "unwind": 3000},
                "thorough": {"histories": "K <= 4"}},
-    "outside": "other clock advances than the three listed; transaction hashes longer than two bytes (the cache key is the hex of the whole hash); more than two watcher queues; pre-emption inside the dispatcher (it is a single goroutine reading its channels); cooperative scheduling: the harness hands over at Settle() points",
+    "outside": "other clock advances than the four listed; transaction hashes longer than two bytes (the cache key is the hex of the whole hash); more than two watcher queues; pre-emption inside the dispatcher (it is a single goroutine reading its channels); cooperative scheduling: the harness hands over at Settle() points",
     "assumptions": ["cooperative goroutine model: one goroutine runs until it blocks; channels are FIFO queues (an unbuffered channel is modelled as a one-slot hand-off queue)",
                     "context.WithCancel modelled as {done channel, err}; the clock.Clock interface is implemented by the harness (native replay uses the same implementation)"],
 }
 CHECKS["C20"] = {
     "runs": [
-        {"pkg": "./cmd/spy", "entry": "VerifC20_Delivery", "reach": ["delivered", "filtered", "end"], "opts": {"z3": "z3-new"}, "allow_blocked": True,
-         "shards": {"quick": ["nsub=1", "nsub=2;nvaa=1;nfilters#0=0", "nsub=2;nvaa=1;nfilters#0=1", "nsub=2;nvaa=1;nfilters#0=2", "nsub=2;nvaa=2;nfilters=0,1;stalledSub=9", "nsub=2;nvaa=3;nfilters=0,1;stalledSub=9;v.chain=0", "nsub=2;nvaa=3;stalledSub=0;nfilters=0,1", "nsub=2;nvaa=3;stalledSub=1;nfilters=0,1"],
+        {"pkg": "./cmd/spy", "entry": "VerifC20_Delivery", "reach": ["delivered", "filtered", "end", "send-failed"], "opts": {"z3": "z3-new"}, "allow_blocked": True,
+         "shards": {"quick": ["nsub=1", "nsub=2;nvaa=1;nfilters#0=0", "nsub=2;nvaa=1;nfilters#0=1", "nsub=2;nvaa=1;nfilters#0=2", "nsub=2;nvaa=2;nfilters=0,1;stalledSub=9;failSub=9", "nsub=2;nvaa=2;nfilters=0,1;stalledSub=9;failSub=0,1", "nsub=2;nvaa=3;nfilters=0,1;stalledSub=9;v.chain=0;failSub=9", "nsub=2;nvaa=3;nfilters=0,1;stalledSub=9;v.chain=0;failSub=0,1", "nsub=2;nvaa=3;stalledSub=0;nfilters=0,1", "nsub=2;nvaa=3;stalledSub=1;nfilters=0,1"],
                     "thorough": ["nsub=1", "nsub=2"] + ["nsub=3;nvaa=%d;stalledSub=%d;nfilters=0,1" % (v, st) for v in (1, 2) for st in (9, 0, 1, 2)]},
          "timeout": {"quick": 2400, "thorough": 30000}},
     ],
-    "bounds": {"quick": {"scenarios": "1..2 subscribers with 0..2 filters each (chain id and last address byte symbolic, filters may coincide; the first filter of the first subscriber may carry any 32-bit chain number outside 0..65535); 1..3 published VAAs with symbolic emitter chain and address byte; nobody or one subscriber stalled from the start (its Send never returns); afterwards a new subscription, its disconnect, and the disconnect of every draining subscriber",
+    "bounds": {"quick": {"scenarios": "1..2 subscribers with 0..2 filters each (chain id and last address byte symbolic, filters may coincide; the first filter of the first subscriber may carry any 32-bit chain number outside 0..65535); 1..3 published VAAs with symbolic emitter chain and address byte; nobody or one subscriber stalled from the start (its Send never returns), or one subscriber whose connection is broken (its Send returns an error while its context is still live: the handler must return and the subscription be removed); afterwards a new subscription, its disconnect, and the disconnect of every draining subscriber",
                          "unwind": 3000},
                "thorough": {"scenarios": "3 subscribers with 0..1 filters each and 1..2 published VAAs"}},
     "outside": "pre-emptive interleavings inside Publish / SubscribeSignedVAA (the scheduler is cooperative: a goroutine runs until it blocks); gRPC transport; delivery multiplicity (a subscriber with two matching filters is sent the VAA twice today - recorded, not asserted); map iteration order other than insertion order",
